@@ -260,3 +260,31 @@ async fn tcp_info_after_peer_reset() {
     let r = std::panic::catch_unwind(std::panic::AssertUnwindSafe(|| stream.info()));
     assert!(r.is_ok(), "info() of an accepted stream panicked after the peer reset the connection");
 }
+
+
+/// acc.pending_registered / acc.skip_only_dead [C09]: any number of stale connect requests in front of a live one -
+/// one, a few, a whole queue (the channel holds 32), more than a queue - never stalls or ends the acceptor
+#[tokio::test]
+async fn acc_many_stale_then_live() {
+    use futures_util::FutureExt as _;
+    for stale in [1usize, 2, 5, 31, 32] {
+        let (client, mut incoming) = duplex::pair();
+        for _ in 0..stale {
+            let _ = client.connect(64).now_or_never(); // queued, then the caller gives up
+        }
+        // the acceptor task sees the stale requests in its first poll and goes to sleep on the empty queue; only a
+        // registered waker can bring it back when the live client arrives
+        let acceptor = tokio::spawn(async move {
+            let r = poll_fn(|cx| Pin::new(&mut incoming).poll_accept(cx)).await;
+            r.map(|_| ())
+        });
+        for _ in 0..5 { tokio::task::yield_now().await; }
+        assert!(!acceptor.is_finished(), "{stale} cancelled connects ended the acceptor");
+        let c2 = client.clone();
+        let good = tokio::spawn(async move { c2.connect(64).await });
+        let accepted = tokio::time::timeout(std::time::Duration::from_secs(3), acceptor).await;
+        assert!(matches!(accepted, Ok(Ok(Ok(())))), "after {stale} cancelled connects the acceptor no longer accepts a live client: {accepted:?}");
+        assert!(good.await.unwrap().is_ok());
+        drop(client);
+    }
+}
